@@ -66,7 +66,7 @@ CLAIMS = {
         ref="2/C11"),
     "C12": dict(
         technique="sibling cross-check: linear forms over the uninterpreted eta() against the dblquad regions; shape-name table; .real on Matsubara paths; registry agreement; exponential-polynomial forms of the integrands: branch beyond the overflow guard vs guarded branch, term by term, with the guard's test checked to imply the bound",
-        text="Decides that the closed-form cell integrals are the inclusion-exclusion of the double antiderivative over exactly the regions the quadrature sibling integrates (L1), shape-name agreement (L2), Matsubara realness by construction (L3) cutoff-registry / integrand-builder agreement (L4), eta'' = C between the two integrand builders (L5), memo-key completeness in bath_correlations (L6). The kernel eta itself is not decided. L8: the integrands beyond the overflow guard equal the guarded ones up to terms bounded by exp(-w/T) for real and Matsubara arguments, and the guard implies that bound on the approximate branch.",
+        text="Decides that the closed-form cell integrals are the inclusion-exclusion of the double antiderivative over exactly the regions the quadrature sibling integrates (L1), shape-name agreement (L2), Matsubara realness by construction (L3) cutoff-registry / integrand-builder agreement (L4), eta'' = C between the two integrand builders (L5), memo-key completeness in bath_correlations (L6). The kernel eta itself is not decided. L8: the integrands beyond the overflow guard equal the guarded ones up to terms bounded by exp(-w/T) for real and Matsubara arguments, and the guard implies that bound on the approximate branch. L9: the quadrature over the semi-infinite tail of the frequency axis is done in units of the cutoff frequency (QUADPACK's map of [a, inf) is not scale covariant; repaired in 910df93).",
         note="Trusted: forms engine over an uninterpreted function; scipy.dblquad argument convention table. Partial claim.",
         ref="2/C12"),
     "C13": dict(
